@@ -5,6 +5,7 @@
     selftest/stats_mutants.py M4 M8           selected mutants
     selftest/stats_mutants.py --baseline      the scratch tree with only the F6 repair: all three must HOLD
     selftest/stats_mutants.py --clean         remove the scratch copies
+    (VERIF_SEED is honoured)
 
 Never touches /repo or /verif/harness: /repo is copied to /var/tmp/stats-repo, the harness to
 /var/tmp/stats-harness (path dependencies rewritten), and the *unchanged* orchestration of
@@ -91,9 +92,9 @@ def run_check(pid):
     code = (
         "import sys, importlib; sys.path.insert(0, %r); import vlib\n"
         "vlib.HARNESS=%r; vlib.EVIDENCE=%r; vlib.VERIF=%r; vlib.KNOWN=%r\n"
-        "mod = importlib.import_module('props.%s'); ctx = vlib.Ctx(%r, 'quick', 1)\n"
+        "mod = importlib.import_module('props.%s'); ctx = vlib.Ctx(%r, 'quick', %d)\n"
         "try:\n    sys.exit(mod.check(ctx))\nexcept vlib.ToolError as e:\n    print('TOOL-ERROR', e); sys.exit(2)\n"
-    ) % (os.path.join(VERIF, "bin"), HARN, os.path.join(OUT, "evidence"), OUT, os.path.join(OUT, "none.txt"), pid.lower(), pid)
+    ) % (os.path.join(VERIF, "bin"), HARN, os.path.join(OUT, "evidence"), OUT, os.path.join(OUT, "none.txt"), pid.lower(), pid, int(os.environ.get("VERIF_SEED", "1")))
     r = subprocess.run([sys.executable, "-c", code], text=True, stdout=subprocess.PIPE, stderr=subprocess.STDOUT)
     lines = [l for l in r.stdout.splitlines() if l.startswith(("VIOLATION", "  ", "TOOL-ERROR", "[check] C"))]
     return r.returncode, lines
